@@ -119,6 +119,11 @@ func schemeOf(id int64) barcode.ColorScheme {
 	return barcode.ColorScheme{Model: m, Foreground: fgc, Background: bgc}
 }
 
+// PreferWithColor makes requests for the plain variant go through the WithColor entry
+// point with the library's default scheme (set in every second worker, so that in half
+// of the processes the first call into a package is EncodeWithColor).
+var PreferWithColor bool
+
 // do performs the request against the real library.
 func (r Req) do() (barcode.Barcode, error) {
 	s := string(r.S)
@@ -126,6 +131,9 @@ func (r Req) do() (barcode.Barcode, error) {
 	var cs barcode.ColorScheme
 	if !plain {
 		cs = schemeOf(r.Scheme)
+	} else if PreferWithColor {
+		plain = false
+		cs = barcode.ColorScheme16
 	}
 	switch r.Fam {
 	case "qr":
